@@ -272,8 +272,8 @@ def run_part(tier, work, mir):
     exe_dev = mengine.build_mtool("debug")
     exe_rel = mengine.build_mtool("release")
     rnd = random.Random(seed() * 13 + 3)
-    alpha = list("%09aFg+ -~/") + ["é", "€", "\U0001d11e"]
-    texts = ["", "abc", "%41", "%4", "%", "%zz", "a%2Fb", "%e2%82%ac", "é%C3", "100%", "%%41", "%2", "%G0", "a b", "%7e"] + \
+    alpha = list("%0925aFg+ -~/") + ["é", "€", "\U0001d11e"]
+    texts = ["", "abc", "%41", "%4", "%", "%zz", "a%2Fb", "%e2%82%ac", "é%C3", "100%", "%%41", "%2", "%G0", "a b", "%7e", "%25", "100%25", "%2541", "%25zz", "%25%32%35", "%2525", "a%25", "%41%42", "%4%41"] + \
             ["".join(rnd.choice(alpha) for _ in range(rnd.randint(0, 6))) for _ in range(120)]
     texts = [t for t in texts if role("dec", t) != "percent-decode:sign-accepted-as-hex-digit" or ("C18", "percent-decode:sign-accepted-as-hex-digit") not in known]
     blobs = [b"", b"abc", b"a/b c", bytes(range(0, 256, 7)), "é€".encode()] + [bytes(rnd.randrange(256) for _ in range(rnd.randint(0, 6))) for _ in range(60)]
